@@ -275,6 +275,14 @@ generate_wrappers() {
       record_function(dummy_type, func_index);
     }
   }
+
+  // Wrapping the global functions and elements may have defined additional
+  // types (such as a class in a namespace that is only mentioned by a function
+  // signature).  Their methods need wrappers as well.
+  while (ti < idb->get_num_all_types()) {
+    TypeIndex type_index = idb->get_all_type(ti++);
+    record_object(type_index);
+  }
 }
 
 /**
